@@ -85,7 +85,8 @@ Den(prog, i, cur, units, viol, ctx) ==
                     ELSE {}
           IN Den(prog, i + 1, [cur EXCEPT !.cells = Append(@, o.v.c)], units, viol \cup v1 \cup v2, ctx)
   ELSE IF name \in {"end_row", "write_row"} THEN
-     IF nc = 0 THEN Den(prog, i + 1, [cur EXCEPT !.n0 = @ + 1], units, viol, ctx)
+     \* ("times": the scenario's shorthand for end_row called that many times in a zero-column resultset)
+     IF nc = 0 THEN Den(prog, i + 1, [cur EXCEPT !.n0 = @ + (IF name = "end_row" /\ "times" \in DOMAIN o THEN o.times ELSE 1)], units, viol, ctx)
      ELSE LET cells == IF name = "write_row" THEN cur.cells \o CanonOf(o.vs) ELSE cur.cells
               v1 == IF Len(cells) # nc THEN {V("C03", ctx.at, "row with a wrong number of cells accepted")} ELSE {}
           IN Den(prog, i + 1, [cur EXCEPT !.cells = << >>, !.rows = Append(@, cells)], units, viol \cup v1, ctx)
